@@ -583,6 +583,18 @@ func (s *Stats) Trace(evs []proto.Event) {
 	s.mu.Unlock()
 }
 
+// TraceInts records a schedule (list of goroutine ids) as a distinct trace.
+func (s *Stats) TraceInts(xs []int) {
+	var h uint64 = 1469598103934665603
+	for _, x := range xs {
+		h ^= uint64(x) + 1
+		h *= 1099511628211
+	}
+	s.mu.Lock()
+	s.Traces[h] = true
+	s.mu.Unlock()
+}
+
 func (s *Stats) NoteSites(r *proto.RunResp) {
 	s.mu.Lock()
 	defer s.mu.Unlock()
